@@ -26,6 +26,10 @@ ASSUMPTIONS = ["the scheduler serialises threads (sequential consistency); the l
 ALLOWED = {"memcpy", "memmove", "memset", "memcmp", "bcmp",
            "__udivti3", "__umodti3", "__udivdi3", "__umoddi3", "__divti3", "__modti3", "__multi3", "__muldi3", "__ashlti3", "__lshrti3", "__ashrti3",
            "__ashldi3", "__lshrdi3", "__ashrdi3", "__udivmodti4", "__udivmoddi4", "__stack_chk_fail", "__stack_chk_guard", "_GLOBAL_OFFSET_TABLE_"}
+# the integer helpers of libgcc / compiler-rt (division, multiplication, shifts, comparisons, bit counting, byte swaps on 32/64/128-bit integers) and
+# the ARM EABI names of the same helpers and of the memory primitives: "compiler arithmetic helpers" and "C memory primitives" in the property's words
+ALLOWED_RE = re.compile(r"^(__(u?div|u?mod|u?divmod|mul|ashl|lshr|ashr|clz|ctz|popcount|bswap|ffs|parity|u?cmp|neg|mulo)[sdt]i[234]"
+                        r"|__aeabi_(u?idiv|u?idivmod|u?ldivmod|lmul|llsl|llsr|lasr|u?lcmp|mem(cpy|move|set|clr)[48]?))$")
 AUDIT_CONFIGS = ["asm", "c64", "c32", "emb64", "emb32"]
 
 MENU_SMALL = ["fq_inverse", "fq_sqrt", "fr_sqrt", "fq2_multiply", "fq2_sqrt", "fq6_multiply", "fq12_multiply", "fq12_inverse", "cyclotomic_square", "g1_add", "g1_double",
@@ -61,7 +65,7 @@ def audit(cfg):
                     undefined.setdefault(parts[1], []).append(os.path.basename(o))
             elif len(parts) == 3 and parts[1] not in ("U",):
                 defined.add(parts[2])
-    bad = {s: files for s, files in undefined.items() if s not in defined and s not in ALLOWED}
+    bad = {s: files for s, files in undefined.items() if s not in defined and s not in ALLOWED and not ALLOWED_RE.match(s)}
     return len(objs), len(undefined), bad
 
 
